@@ -69,7 +69,12 @@ MENU = [
     # modules that reach their siblings through imports, so that a sibling is first processed from inside another module
     ("import_m1", b"'''Imports the next module.'''\nfrom pkg.m1 import helper\nfrom . import m1 as alias\nimport pkg.m1\nclass Sub(alias.Base, helper): pass\n"),
     ("import_star_m1_m2", b"from .m1 import *\nfrom .m2 import *\nfrom .m1 import (a as b, c)\n__all__ = ['b']\n"),
-    ("import_m0_cycle", b"from pkg.m0 import f, K\nfrom pkg import m0, m1, m2\nclass L(K): pass\n"),
+    ("empty_string_annotations", b"from typing import List, Annotated, TypeAlias\nx: '' = 1\ny = 2 # type: ''\nX: TypeAlias = ''\ndef f(a: List[' '], b: '[', c: 'pass', d: '1 ; 2', e: Annotated[int, '']) -> '# later': pass\nclass C:\n    @property\n    def p(self) -> '': pass\n"),
+    ("rewrapped_methods", b"class C:\n    def f(self): pass\n    f = staticmethod(f)\n    f = classmethod(f)\n    @staticmethod\n    def g(): pass\n    g = staticmethod(g)\n    @property\n    def h(self): pass\n    h = classmethod(h)\n    k = staticmethod(k)\n    def k(self): pass\ndef top(): pass\ntop = staticmethod(top)\n"),
+    # a second ROOT module 'other' stands next to the package; one file imports it, another re-exports it from there
+    ("imports_root", b"import other\nfrom other import x\nimport other as alias\n"),
+    ("reexports_root_via_m1", b"from pkg.m1 import other\nfrom pkg.m1 import alias as renamed\n__all__ = ['other', 'renamed']\n"),
+    ("import_m0_cycle",b"from pkg.m0 import f, K\nfrom pkg import m0, m1, m2\nclass L(K): pass\n"),
 ]
 NM = len(MENU)
 UNPARSABLE = {"syntax_error", "null_byte", "bad_indent", "not_utf8", "bad_coding"}
@@ -92,6 +97,8 @@ def check_run(indices, fmt):
             names.append((nm, MENU[i][0]))
             with open(os.path.join(pkg, nm + ".py"), "wb") as f:
                 f.write(MENU[i][1])
+        with open(os.path.join(d, "other.py"), "wb") as f:
+            f.write(b"'''A second root.'''\nx = 1\n")
         opts = copy.copy(OPTS)
         opts.docformat = fmt
         opts.projectbasedirectory = Path(d)
@@ -106,13 +113,15 @@ def check_run(indices, fmt):
         ctx = dict(modules=[k for _n, k in names], docformat=fmt)
         sample(modules=[k for _n, k in names], docformat=fmt, files={nm + ".py": MENU[i][1].decode("latin-1") for (nm, _k), i in zip(names, indices)})
         try:
+            s.addModuleFromPath(Path(d) / "other.py", None)
             s.addPackage(Path(pkg), None)
             s.process()
         except Exception as e:
             note(why="analysis aborts with an uncaught exception", exc=repr(e), **ctx)
             return False
         for nm, kind in names:
-            if "pkg." + nm not in s.allobjects:
+            # (a module may have been moved by a re-export - C07's subject - but it is still a documented module)
+            if "pkg." + nm not in s.allobjects and not any(isinstance(o, model.Module) and o.source_path is not None and o.source_path.name == nm + ".py" for o in s.allobjects.values()):
                 note(why="a file of the package is not listed as a module", module=nm, **ctx)
                 return False
             if kind in UNPARSABLE and not any((nm + ".py") in m and t < 0 for _s, m, t in msgs):
@@ -171,8 +180,8 @@ NMOD = tier(2, 3)
     parts=lambda: list(range(NM)), timeout=(300, 3000), cls="E", tracing="concrete-after-choice", twin="first", unblock=UNBLOCK,
     code=["pydoctor.model.System.addPackage/analyzeModule/process/processModule", "pydoctor.astbuilder.ASTBuilder.parseFile/processModuleAST", "pydoctor.astbuilder.parseAll/parseDocformat/ModuleVistor.*",
           "pydoctor.model.defaultPostProcess", "pydoctor.templatewriter.writer.TemplateWriter", "pydoctor.sphinx.SphinxInventoryWriter", "pydoctor.driver.main (exit status)"],
-    bounds={"quick": "packages of 2 modules drawn from a menu of 34 module files (5 that do not parse - syntax error, NUL byte, inconsistent indentation, undecodable bytes, unknown coding -, un-evaluable __all__ / __docformat__, modules importing their siblings in either direction, every special-cased statement form, duplicates, bad fields, empty file), docformat chosen by the pair (1 156 packages)",
-            "thorough": "3 modules (39 304 packages) x docformat chosen by the triple"},
+    bounds={"quick": "a root module 'other' + packages of 2 modules drawn from a menu of 38 module files (5 that do not parse - syntax error, NUL byte, inconsistent indentation, undecodable bytes, unknown coding -, un-evaluable __all__ / __docformat__, modules importing their siblings in either direction, every special-cased statement form, duplicates, bad fields, empty file), docformat chosen by the pair (1 444 packages)",
+            "thorough": "3 modules (54 872 packages) x docformat chosen by the triple"},
     outside="everything not assembled from the menu; hangs; the command-line front end (options parsing, intersphinx download)",
 )
 def h_run_completes(i1: int, i2: int) -> bool:
